@@ -27,7 +27,11 @@ var errX = errors.New("attempt failed")
 
 // cfg is a delay configuration. Durations in nanoseconds.
 type cfg struct {
-	Kind string `json:"kind"` // none | fixed | backoff | random | func-value | func-zero | func-none | backoff-func-mixed
+	Kind string `json:"kind"` // none | fixed | backoff | random | func-value | func-zero | func-none | backoff-func-mixed | func-slow
+	// func-slow: the delay function takes SlowUs to answer FuncVal (the remaining max duration keeps shrinking meanwhile)
+	SlowUs int `json:"slow_us,omitempty"`
+	// inFunc (not part of the configuration): called by the delay function just before it answers
+	inFunc func(failsafe.ExecutionAttempt[int])
 	// FuncPattern (backoff-func-mixed): per retry, the delay function's answer in ns, or -1 for "no opinion" (the backoff
 	// delay applies; the k-th backoff delay is the k-th one the backoff produced, whatever the function said in between)
 	FuncPattern []int64 `json:"func_pattern,omitempty"`
@@ -56,6 +60,9 @@ type cfg struct {
 func (c cfg) build(onScheduled func(failsafe.ExecutionScheduledEvent[int])) retrypolicy.RetryPolicy[int] {
 	b := retrypolicy.Builder[int]().WithMaxRetries(-1)
 	switch c.PriorDelay {
+	case "backoff+random":
+		// (kind fixed) the random delay replaced the backoff, the fixed delay comes last: a plain fixed delay remains
+		b.WithBackoff(5*time.Millisecond, 11*time.Hour).WithRandomDelay(3*time.Millisecond, 9*time.Millisecond)
 	case "fixed":
 		b.WithDelay(7 * time.Millisecond)
 	case "random":
@@ -87,6 +94,14 @@ func (c cfg) build(onScheduled func(failsafe.ExecutionScheduledEvent[int])) retr
 		b.WithDelay(time.Duration(c.Delay)).WithDelayFunc(func(failsafe.ExecutionAttempt[int]) time.Duration { return 0 })
 	case "func-none":
 		b.WithDelay(time.Duration(c.Delay)).WithDelayFunc(func(failsafe.ExecutionAttempt[int]) time.Duration { return -1 })
+	case "func-slow":
+		b.WithDelay(time.Duration(c.Delay)).WithDelayFunc(func(e failsafe.ExecutionAttempt[int]) time.Duration {
+			time.Sleep(time.Duration(c.SlowUs) * time.Microsecond)
+			if c.inFunc != nil {
+				c.inFunc(e)
+			}
+			return time.Duration(c.FuncVal)
+		})
 	case "backoff-func-mixed":
 		b.WithBackoffFactor(time.Duration(c.Delay), time.Duration(c.MaxDelay), c.Factor).WithDelayFunc(func(e failsafe.ExecutionAttempt[int]) time.Duration {
 			if k := e.Retries(); k < len(c.FuncPattern) {
@@ -164,7 +179,7 @@ func (c cfg) base(k int) (lo, hi float64) {
 		return lo, hi
 	case "random":
 		return float64(c.Min), float64(c.Max)
-	case "func-value":
+	case "func-value", "func-slow":
 		return float64(c.FuncVal), float64(c.FuncVal)
 	case "func-zero":
 		return 0, 0
@@ -205,7 +220,7 @@ func logUniform(t *rapid.T, label string, lo, hi int64) int64 {
 
 // genCfg draws a configuration; scale bounds the magnitudes (ns).
 func genCfg(t *rapid.T, lo, hi int64) cfg {
-	c := cfg{Kind: rapid.SampledFrom([]string{"none", "fixed", "backoff", "backoff", "backoff", "random", "func-value", "func-zero", "func-none", "backoff-func-mixed"}).Draw(t, "kind")}
+	c := cfg{Kind: rapid.SampledFrom([]string{"none", "fixed", "backoff", "backoff", "backoff", "random", "func-value", "func-zero", "func-none", "backoff-func-mixed", "func-slow"}).Draw(t, "kind")}
 	c.Delay = logUniform(t, "delay", lo, hi)
 	switch c.Kind {
 	case "backoff", "backoff-func-mixed":
@@ -233,6 +248,13 @@ func genCfg(t *rapid.T, lo, hi int64) cfg {
 		}
 	case "func-value":
 		c.FuncVal = logUniform(t, "funcVal", lo, hi)
+	case "func-slow":
+		c.FuncVal = logUniform(t, "funcVal", lo, hi)
+		c.SlowUs = rapid.SampledFrom([]int{200, 1000, 3000}).Draw(t, "slowUs")
+	case "fixed":
+		if rapid.IntRange(0, 2).Draw(t, "threeStep") == 0 {
+			c.PriorDelay = "backoff+random"
+		}
 	}
 	switch rapid.IntRange(0, 3).Draw(t, "jitterKind") {
 	case 1:
@@ -276,6 +298,13 @@ func blackBox(c cfg, realWait bool) (violation, sig string, clampSeen bool, n in
 	var entries []entryObs
 	ctx, cancel := context.WithCancel(context.Background())
 	defer cancel()
+	var elapsedInFunc []time.Duration
+	c.inFunc = func(e failsafe.ExecutionAttempt[int]) {
+		el := e.ElapsedTime()
+		mu.Lock()
+		elapsedInFunc = append(elapsedInFunc, el)
+		mu.Unlock()
+	}
 	rp := c.build(func(e failsafe.ExecutionScheduledEvent[int]) {
 		mu.Lock()
 		scheds = append(scheds, schedObs{delay: e.Delay, at: time.Now(), elapsedAt: e.ElapsedTime()})
@@ -313,6 +342,12 @@ func blackBox(c cfg, realWait bool) (violation, sig string, clampSeen bool, n in
 			// policy's, so the remaining time it saw is not larger
 			if rem := time.Duration(c.MaxDur) - entries[k].elapsedAtExit; s.delay > rem && s.delay > 0 {
 				return fmt.Sprintf("delay %d is %v but only %v of the max duration %v remained when the attempt returned", k, s.delay, rem, time.Duration(c.MaxDur)), "delay-past-max-duration", false, len(scheds)
+			}
+		}
+		if c.MaxDur != 0 && k < len(elapsedInFunc) {
+			// the delay function's own reading of the elapsed time precedes the policy's clamp
+			if rem := time.Duration(c.MaxDur) - elapsedInFunc[k]; s.delay > rem && s.delay > 0 {
+				return fmt.Sprintf("delay %d is %v but only %v of the max duration %v remained when the delay function answered", k, s.delay, rem, time.Duration(c.MaxDur)), "delay-past-max-duration", false, len(scheds)
 			}
 		}
 		if d < lo {
@@ -404,6 +439,7 @@ func probeProperty(test string, st *harness.Stats) func(*rapid.T) {
 		if rapid.Bool().Draw(t, "maxDur") {
 			c.MaxDur = logUniform(t, "maxDur", 1_000_000, int64(40*time.Hour))
 		}
+		c.SlowUs = 0 // the probe's elapsed time is virtual: nothing to gain from really sleeping in the delay function
 		if rapid.IntRange(0, 2).Draw(t, "interleaved") == 0 {
 			for k := 0; k < c.Failures; k++ {
 				c.Interleave = append(c.Interleave, rapid.IntRange(0, 2).Draw(t, "otherRetries"))
